@@ -1,2 +1,10 @@
 import TransportVerif.Props.C17
-#print axioms TV.C17.placeholder
+#print axioms TV.Props.C17.no_leftover_deadline
+#print axioms TV.Props.C17.result_is_what_moved
+#print axioms TV.Props.C17.finished_iff_result
+#print axioms TV.Props.C17.bytes_conserved
+#print axioms TV.Props.C17.cancelled_returns
+#print axioms TV.Props.C17.cancelled_error
+#print axioms TV.Props.C17.next_starts_clean
+#print axioms TV.Props.C17.session_conserves
+#print axioms TV.Props.C17.session_live_ops_unaffected
